@@ -3,7 +3,7 @@ import importlib
 
 MODULES = {
     "C01": "check_sched", "C02": "check_sched", "C03": "check_sched", "C04": "check_sched", "C05": "check_sched",
-    "C06": "check_c06", "C07": "check_c07", "C08": "check_c08", "C09": "check_outbuf", "C10": "check_spill", "C11": "check_timebuf", "C12": "check_timebuf", "C13": "check_delay", "C14": "check_grid", "C15": "check_grid", "C18": "check_c18", "C19": "check_c19", "C20": "check_c20",
+    "C06": "check_c06", "C07": "check_c07", "C08": "check_c08", "C09": "check_outbuf", "C10": "check_spill", "C11": "check_timebuf", "C12": "check_timebuf", "C13": "check_delay", "C14": "check_grid", "C15": "check_grid", "C16": "check_c16", "C17": "check_c17", "C18": "check_c18", "C19": "check_c19", "C20": "check_c20",
 }
 
 
